@@ -6,7 +6,8 @@ Impl model (transliteration, defects included) of
   * memory/table.go                    `GetNextAutoIncrementValue`         → inside `evalAuto`
                                        `updateAutoIncrementSafe`           → `bump`
                                        `PeekNextAutoIncrementValue`        → `peek`
-                                       `Truncate` / `TableData.truncate`   → `.trunc`
+                                       `Truncate` / `TableData.truncate`   → `.trunc` (and sql/rowexec/dml.go
+                                       `buildTruncate`: SetAutoIncrementValue(1) — the counter is reset twice)
   * memory/table_editor.go             `tableEditor.Insert` (PK/UNIQUE check, counter bump)
                                                                            → `insRow` / `afterInsert`
                                        `StatementBegin/DiscardChanges`     → `stmtInsert` restoring `tbl`
@@ -199,7 +200,7 @@ inductive Res where
   | ok (affected : Nat) (insertId : Nat)
   | err (e : Err)
   | done                       -- DDL
-  deriving Repr
+  deriving Repr, DecidableEq
 
 /-- Does the log already contain value `v`? -/
 def logHas (l : List Ev) (v : Int) : Bool := l.any (fun e => e.v == v)
